@@ -684,7 +684,7 @@ func (vc *VC) detUF(key string, i int, argSorts, argTerms []string, resSort stri
 
 func isHigherOrder(key string) bool {
 	switch key {
-	case "slices.ContainsFunc", "slices.IndexFunc", "slices.SortFunc", "slices.SortStableFunc":
+	case "slices.ContainsFunc", "slices.IndexFunc", "slices.SortFunc", "slices.SortStableFunc", "slices.Contains":
 		return true
 	}
 	return false
@@ -695,6 +695,16 @@ func (ft *fnTrans) higherOrder(x ssa.Value, key string, c *ssa.CallCommon, h *He
 		return false
 	}
 	vc := ft.vc
+	if key == "slices.Contains" {
+		s := ft.val(c.Args[0])
+		sl := c.Args[0].Type().Underlying().(*types.Slice)
+		comp := vc.compElems(sl.Elem())
+		vc.nfresh++
+		iv := fmt.Sprintf("i!c%d", vc.nfresh)
+		el := sel(sel(vc.get(*h, comp), "(s-base "+s+")"), "(sidx (s-off "+s+") "+iv+")")
+		ft.vals[x] = vc.define(nameOr(x, "contains"), "Bool", fmt.Sprintf("(exists ((%s Int)) (and (<= 0 %s) (< %s (s-len %s)) (= %s %s)))", iv, iv, iv, s, el, ft.val(c.Args[1])))
+		return true
+	}
 	fn, bindings, ok := ft.closureOf(c.Args[1])
 	if !ok {
 		unsup("%s with a function value that is not a literal", key)
